@@ -361,6 +361,28 @@ pub fn run(cfg: &J) -> J {
             r.text(&j_bytes(&c["text"]), &c["ro"], &mut rng, n % stride == 0);
         }
     }
+    // (2b) string bodies mixing literal non-ASCII text with every kind of escape, in every order (the slice and the
+    // stream scanners decide separately whether an Emacs Lisp string is unibyte)
+    {
+        let frags: [&str; 12] = ["\u{e9}", "a", "\\x41", "\\101", "\\u00e9", "\\n", "\\xe9", "\u{3bb}", "\\x41;", "\\N{U+3bb}", "\\ ", "\\377"];
+        let opts = [elisp_parse_opts_json(), default_parse_opts_json()];
+        let mut k = 0usize;
+        for a in 0..=frags.len() {
+            for b in 0..=frags.len() {
+                for c in 0..frags.len() {
+                    let mut t = String::from("\"");
+                    if a < frags.len() { t.push_str(frags[a]); }
+                    if b < frags.len() { t.push_str(frags[b]); }
+                    t.push_str(frags[c]);
+                    t.push('"');
+                    for ro in &opts {
+                        k += 1;
+                        r.text(t.as_bytes(), ro, &mut rng, k % (stride * 4) == 0);
+                    }
+                }
+            }
+        }
+    }
     // (3) seeded well-formed and malformed inputs
     let all = all_parse_opts();
     let (dpo, epo) = (default_parse_opts_json(), elisp_parse_opts_json());
